@@ -30,6 +30,13 @@ async def run_one(ctx, tree, n, plan, results, timeout=10.0):
         conf = ('external_acl_type chk concurrency=50 children-max=1 children-startup=1 children-idle=1 ttl=0 negative_ttl=0 %%URI /usr/bin/env python3 %s %s\n'
                 'acl viachk external chk\n' % (STUB, ctl))
         access = 'http_access allow viachk\nhttp_access deny all'
+    elif mode == 'extacl2':
+        # two ACLs of one external_acl_type whose lookup keys differ only in the ACL argument (one a prefix of the other, in
+        # either order), both evaluated for every request: each decision must rest on the replies to its own two queries
+        a1, a2 = plan['args']
+        conf = ('external_acl_type chk concurrency=50 children-max=1 children-startup=1 children-idle=1 ttl=%d negative_ttl=%d %%URI /usr/bin/env python3 %s %s\n'
+                'acl first external chk %s\nacl second external chk %s\n' % (plan.get('ttl', 0), plan.get('ttl', 0), STUB, ctl, a1, a2))
+        access = 'http_access deny first\nhttp_access allow second\nhttp_access deny all'
     else:
         conf = ('url_rewrite_program /usr/bin/env python3 %s %s\nurl_rewrite_children 1 startup=1 idle=1 concurrency=%d\n'
                 'url_rewrite_extras ""\nurl_rewrite_bypass off\n' % (STUB, ctl, 0 if mode == 'serial' else 50))
@@ -76,6 +83,19 @@ async def run_one(ctx, tree, n, plan, results, timeout=10.0):
                 vid = [x for x in f if x.startswith('id=')]
                 if vid and len(f) > 7:
                     un[vid[0][3:]] = f[7]
+        if mode == 'extacl2':
+            a1, a2 = plan['args']
+            ev = [{'e': 'HVerdict', 'q': e['q'], 'v': e['v']} for e in hev if e['e'] == 'HVerdict']
+            for k, r in rs:
+                if r.status == 200 and seen.get(k) is not None:
+                    ev.append({'e': 'Decided', 'k': k, 'status': 200, 'alts': [[{'q': '%s %s' % (k, a1), 'v': 'ERR'}, {'q': '%s %s' % (k, a2), 'v': 'OK'}]]})
+                elif r.status == 403:
+                    ev.append({'e': 'Decided', 'k': k, 'status': 403, 'alts': [[{'q': '%s %s' % (k, a1), 'v': 'OK'}],
+                                                                            [{'q': '%s %s' % (k, a1), 'v': 'ERR'}, {'q': '%s %s' % (k, a2), 'v': 'ERR'}]]})
+                else:
+                    ev.append({'e': 'Outcome', 'k': k, 'kind': 'lost' if r.status is None else 'err', 'k2': ''})
+            results.append({'plan': plan, 'ev': ev, 'strays': [], 'writes': [], 'log': []})
+            return
         for k, r in rs:
             t = seen.get(k)
             if mode == 'extacl':
@@ -175,12 +195,21 @@ def run(ctx):
             strays.append([order[pos], rnd.choice(['dup:' + rnd.choice(order[:pos]), 'chan:%d' % rnd.choice([0, B, B + 1, 40, 1000])])])
         cuts = [[rnd.choice(ks), rnd.randint(1, 4)] for _ in range(rnd.randint(1, 3))]
         plans.append({'mode': 'extacl', 'batch': B, 'order': order, 'cuts': cuts, 'strays': strays, 'pause': 0.01, 'src': 'extacl'})
+    # (g) two external ACLs of one type, keys related by prefix
+    pairs = [('zz-long', 'zz'), ('zz', 'zz-long'), ('g1', 'g10'), ('g10', 'g1'), ('x', 'y'), ('staff-admin', 'staff')]
+    for j in range(12 if ctx.thorough else 6):
+        a = pairs[j % len(pairs)]
+        verd = {}
+        for k in ks:
+            verd['%s %s' % (k, a[0])] = 'OK' if rnd.random() < 0.25 else 'ERR'
+            verd['%s %s' % (k, a[1])] = 'OK' if rnd.random() < 0.6 else 'ERR'
+        plans.append({'mode': 'extacl2', 'batch': B, 'order': ks[:], 'cuts': [], 'args': list(a), 'verdicts': verd, 'ttl': 0 if j % 2 == 0 else 60, 'pause': 0.02, 'src': 'extacl2'})
     for _ in range(8 if ctx.thorough else 3):
         cuts = [[k, rnd.randint(1, 30)] for k in ks if rnd.random() < 0.7]
         plans.append({'mode': 'serial', 'batch': B, 'order': ks[:], 'cuts': cuts, 'pause': 0.004, 'src': 'serial'})
     uniq = {}
     for p in plans:
-        uniq.setdefault(json.dumps([p.get('mode', 'rewrite'), p['order'], sorted(p['cuts']), p.get('strays', [])]), p)
+        uniq.setdefault(json.dumps([p.get('mode', 'rewrite'), p['order'], sorted(p['cuts']), p.get('strays', []), p.get('args'), p.get('ttl')]), p)
     plans = list(uniq.values())
     if not ctx.thorough:
         sysp = [p for p in plans if p['src'] != 'tlc']
@@ -211,18 +240,23 @@ def run(ctx):
     for i in confirmed[:5]:
         r = results[i]
         bad = [e for e in r['ev'] if e['e'] == 'Outcome' and not (e['kind'] == 'rw' and e['k2'] == e['k'])]
+        if r['plan'].get('mode') == 'extacl2':
+            vd = {e['q']: e['v'] for e in r['ev'] if e['e'] == 'HVerdict'}
+            bad = [dict(e, helper_said={f['q']: vd.get(f['q'], 'never asked') for alt in e['alts'] for f in alt}) for e in r['ev'] if e['e'] == 'Decided' and
+                   not any(all(vd.get(f['q']) == f['v'] for f in alt) for alt in e['alts'])]
         ctx.violation('helper reply did not reach the request that asked: %s; helper writes %s' % (json.dumps(bad[:3]), json.dumps(r['writes'][:4])),
                       {'kind': 'helper', 'class': {'split_inside_channel_id': any(j <= 2 for _, j in r['plan']['cuts']), 'stray_replies': bool(r.get('strays')), 'helper': r['plan'].get('mode', 'rewrite')},
                        'plan': r['plan'], 'events': r['ev'], 'squid_log': r['log']})
     ctx.cov['impl_distinct'] = len(results)
-    ctx.cov['requests_checked'] = sum(1 for r in results for e in r['ev'] if e['e'] == 'Outcome')
-    ctx.cov['by_helper_kind'] = {m: sum(1 for r in results if r['plan'].get('mode', 'rewrite') == m) for m in ('rewrite', 'extacl', 'serial')}
+    ctx.cov['requests_checked'] = sum(1 for r in results for e in r['ev'] if e['e'] in ('Outcome', 'Decided'))
+    ctx.cov['access_decisions_over_two_lookups'] = {str(st): sum(1 for r in results for e in r['ev'] if e['e'] == 'Decided' and e['status'] == st) for st in (200, 403)}
+    ctx.cov['by_helper_kind'] = {m: sum(1 for r in results if r['plan'].get('mode', 'rewrite') == m) for m in ('rewrite', 'extacl', 'extacl2', 'serial')}
     ctx.cov['stray_reply_lines'] = sum(len(r.get('strays', [])) for r in results)
     ctx.cov['fragments_written'] = sum(len(r['writes']) for r in results)
     for r in results[:2]:
         ctx.sample({'plan': r['plan'], 'writes': r['writes'][:5], 'outcomes': [e for e in r['ev'] if e['e'] == 'Outcome'][:4]})
     ctx.cov['rule'] = ('HelperImpl.tla (the parse loop of helperHandleRead over ids {1,2,12}, all reply orders and all fragmentations) is model-checked; its '
-                       'paths plus systematic cuts inside two-digit channel ids (prefix channel pending / already answered) plus seeded random plans plus plans with stray reply lines (duplicate channel ids, ids nobody uses) plus the same for an external_acl helper (reply = user name, observed in the access log) plus a helper without channel ids (serial, fragmented replies) are '
+                       'paths plus systematic cuts inside two-digit channel ids (prefix channel pending / already answered) plus seeded random plans plus plans with stray reply lines (duplicate channel ids, ids nobody uses) plus the same for an external_acl helper (reply = user name, observed in the access log) plus a helper without channel ids (serial, fragmented replies) plus two external ACLs of one type whose keys are prefix-related, decided per request from scripted verdicts, are '
                        'realised with a scripted helper on a fresh squid each (12 concurrent requests = channel ids 1..12); histories validated '
                        'by TLC against Helper.tla. Non-trivial = distinct (order, cuts).')
     ctx.assumptions += ['the helper separates fragments by 10-12 ms pauses; Squid may still coalesce two fragments into one read (then the scenario degenerates to an easier one)']
